@@ -583,7 +583,7 @@ def _parse_einsum(subs, arrs):
         lhs, out = subs, None
     ins = lhs.split(",")
     if len(ins) != len(arrs):
-        raise ValueError("einsum: %d operands for subscripts %r" % (len(arrs), subs))
+        raise Modelled(ValueError("einsum: %d operands for subscripts %r" % (len(arrs), subs)))
     # ellipsis
     used = set(c for c in subs if c.isalpha())
     pool = [chr(c) for c in range(0x3B1, 0x3B1 + 24)]  # greek letters for ellipsis dims
@@ -592,7 +592,7 @@ def _parse_einsum(subs, arrs):
         if "..." in s:
             k = a.ndim - (len(s) - 3)
             if k < 0:
-                raise ValueError("einsum: operand has too few dimensions for %r" % s)
+                raise Modelled(ValueError("einsum: operand has too few dimensions for %r" % s))
             nell = max(nell, k)
     ell = pool[:nell]
     ins2 = []
@@ -601,7 +601,7 @@ def _parse_einsum(subs, arrs):
             k = a.ndim - (len(s) - 3)
             s = s.replace("...", "".join(ell[nell - k:]))
         if len(s) != a.ndim:
-            raise ValueError("einsum: subscripts %r do not match operand with %d dimensions" % (s, a.ndim))
+            raise Modelled(ValueError("einsum: subscripts %r do not match operand with %d dimensions" % (s, a.ndim)))
         ins2.append(s)
     if out is None:
         cnt = {}
@@ -633,10 +633,10 @@ def einsum(*ops, out=None, **kw):
             if dims.get(c, 1) == 1:
                 dims[c] = n
             elif n != 1 and n != dims[c]:
-                raise ValueError("einsum: size mismatch for label %r: %d vs %d (%s)" % (c, dims[c], n, subs))
+                raise Modelled(ValueError("einsum: size mismatch for label %r: %d vs %d (%s)" % (c, dims[c], n, subs)))
     for c in outs:
         if c not in dims:
-            raise ValueError("einsum: output label %r not in inputs (%s)" % (c, subs))
+            raise Modelled(ValueError("einsum: output label %r not in inputs (%s)" % (c, subs)))
     all_int = all(a.dtype.kind in "iub" for a in arrs)
     # sparse representations
     reps = []
@@ -990,6 +990,15 @@ minimum = _pairwise(_min2, "minimum")
 # 'close'  : symbolic values that are not identically equal *are* within the tolerance (the inputs the generic world leaves out: close but
 #            unequal).  A property that has to hold for all inputs has to hold in both worlds.
 CLOSE_WORLD = ["generic"]
+
+
+class Modelled(Exception):
+    """an exception that the summarised third-party function itself raises on these (concrete) arguments -- deliberately modelled, exact;
+    the interpreter turns it into an exception of the analysed program (a verdict), unlike accidental failures inside a summary"""
+
+    def __init__(self, exc):
+        Exception.__init__(self, str(exc))
+        self.exc = exc
 
 
 def _close1(x, y, rtol, atol):
@@ -1751,14 +1760,14 @@ def _sparse_ctor(fmt):
             rows = to_int_array(asarray(rows)).reshape(-1)
             cols = to_int_array(asarray(cols)).reshape(-1)
             if not (len(vals) == len(rows) == len(cols)):
-                raise ValueError("row, column, and data array must all be the same length")
+                raise Modelled(ValueError("row, column, and data array must all be the same length"))
             if shape is None:
                 shape = (int(rows.max()) + 1 if len(rows) else 0, int(cols.max()) + 1 if len(cols) else 0)
             shape = _shape(shape)
             if len(rows) and (rows.min() < 0 or cols.min() < 0):
-                raise ValueError("negative index found")
+                raise Modelled(ValueError("negative index found"))
             if len(rows) and (rows.max() >= shape[0] or cols.max() >= shape[1]):
-                raise ValueError("index exceeds matrix dimensions")
+                raise Modelled(ValueError("index exceeds matrix dimensions"))
             d = _filled(shape, 0, "float")
             for v, r, c in zip(vals, rows, cols):
                 d[r, c] = d[r, c] + v
@@ -1799,9 +1808,9 @@ def sp_bmat(blocks, format=None, dtype=None):
             b = rows[i][j]
             if b is not None:
                 if heights[i] is not None and heights[i] != b.shape[0]:
-                    raise ValueError("blocks[%d,:] has incompatible row dimensions" % i)
+                    raise Modelled(ValueError("blocks[%d,:] has incompatible row dimensions" % i))
                 if widths[j] is not None and widths[j] != b.shape[1]:
-                    raise ValueError("blocks[:,%d] has incompatible column dimensions" % j)
+                    raise Modelled(ValueError("blocks[:,%d] has incompatible column dimensions" % j))
                 heights[i] = b.shape[0]
                 widths[j] = b.shape[1]
     if None in heights or None in widths:
